@@ -10,7 +10,8 @@
    [C17_monitor]: the property, evaluated on the observations alone:
      0 holds, 1 violation,
      2 known finding C17-K1 (abort accepted on a task that was in a post-commit phase and
-       was moved back by a generic Claim/Advance),
+       was moved — out of the post-commit phases, or to another phase / embedded flag — by a
+       generic Claim/Advance),
      3 known finding C17-K2 (same, moved back by ResetChannelWriteFenceToPreCutover),
      4 known finding C17-K3 (two active tasks on one channel after a multi-command batch
        in which a generic Claim/Advance re-activated a terminal task).
@@ -322,8 +323,15 @@ Definition mark_step (okc : list cmd) (p c : snap) (k : tkey) (m0 : mark) : N * 
                        | None => false
                        end
                     && (t_phase cur =? PhaseAddLearner) && negb (t_embedded_leader_transfer cur) in
+    (* a Claim/Advance that changes the phase or the embedded flag of the row *)
+    let adv_moved := has_adv
+                     && match pre with
+                        | Some t => negb (t_phase t =? t_phase cur)
+                                    || negb (Bool.eqb (t_embedded_leader_transfer t) (t_embedded_leader_transfer cur))
+                        | None => false
+                        end in
     let m1 := if pre_post then Mark true (mk_adv m0) (mk_reset m0) (mk_other m0) else m0 in
-    let leaving := pre_post && (negb cur_post || aborted) in
+    let leaving := pre_post && (negb cur_post || aborted || adv_moved) in
     let m2 := if leaving then
                 if leg_done then mark_zero
                 else Mark (mk_post m1) (mk_adv m1 || has_adv) (mk_reset m1 || has_reset)
@@ -395,4 +403,7 @@ Fixpoint mon_run (st : mstate) (steps : list (list cmd * obs)) (acc : N) : N :=
     mon_run st' r (combine acc code)
   end.
 
-Definition C17_monitor (c : c17_case) : N := mon_run mstate_init (c_steps c) 0.
+(* the monitor on a list of fully written steps *)
+Definition C17_monitor_on (steps : list (list cmd * obs)) : N := mon_run mstate_init steps 0.
+
+Definition C17_monitor (c : c17_case) : N := C17_monitor_on (c_steps c).
